@@ -143,6 +143,7 @@ func classify(c *Case) (bool, []string) {
 }
 
 func run(t interface{ Fatalf(string, ...any) }, c *Case) {
+	defer fix.Track(prop, "groupby", c, c.Summary())()
 	nt, cl := classify(c)
 	evid.Case(nt, c.Summary(), cl...)
 	if err := oracle(c); err != nil {
